@@ -185,10 +185,18 @@ Fixpoint run_steps (s : sq) (es : list ev) : sq * list Z :=
       let '(s1, o) := run_steps (fst (step s e)) r in (s1, here :: o)
   end.
 
+(** Parked payloads are reported as a set (sorted): the harness cannot see the parking order. *)
+Fixpoint insert_sorted (x : N) (l : list N) : list N :=
+  match l with
+  | [] => [x]
+  | y :: r => if x <=? y then x :: l else y :: insert_sorted x r
+  end.
+Definition sort_n (l : list N) : list N := fold_right insert_sorted [] l.
+
 Record sqcase := { sq_len : N; sq_start : N; sq_progs : list (list N); sq_events : list ev }.
 
 Definition run_sqcase (c : sqcase) : list Z :=
   let '(s, o) := run_steps (init (sq_len c) (sq_start c) (sq_progs c)) (sq_events c) in
   o ++ [(-1)%Z] ++ map slot_z (consumed s)
     ++ [(-2)%Z] ++ pending_from (N.to_nat (len s) + 1) s (khead s)
-    ++ [(-3)%Z] ++ map nz (blocked s).
+    ++ [(-3)%Z] ++ map nz (sort_n (blocked s)).
